@@ -146,7 +146,7 @@ async fn echo(via: &str, n: usize, k: u8) -> Res {
             // CONNECT through the HTTP front-end, then the same echo through its relay loops
             let mut s = tokio::net::TcpStream::connect(w.http.unwrap()).await.map_err(|e| e.to_string())?;
             s.write_all(format!("CONNECT {}:{} HTTP/1.1\r\nHost: {}:{}\r\n\r\n", ip, target.addr.port(), ip, target.addr.port()).as_bytes()).await.map_err(|e| e.to_string())?;
-            let (rep, _) = read_n(&mut s, 39, Duration::from_secs(40)).await;
+            let rep = read_http_head(&mut s, Duration::from_secs(40)).await;
             if !rep.starts_with(b"HTTP/1.1 200") { return Err(format!("CONNECT refused: {}", String::from_utf8_lossy(&rep))); }
             let d2 = data.clone();
             let (mut rd, mut wr) = s.split();
@@ -257,7 +257,7 @@ async fn slow(dir: &str, via: &str, n: usize) -> Res {
             "http" => {
                 let mut s = if small { let sock = tokio::net::TcpSocket::new_v4().map_err(|e| e.to_string())?; let _ = sock.set_recv_buffer_size(4096); sock.connect(w.http.unwrap()).await.map_err(|e| e.to_string())? } else { tokio::net::TcpStream::connect(w.http.unwrap()).await.map_err(|e| e.to_string())? };
                 s.write_all(format!("CONNECT 127.0.0.1:{port} HTTP/1.1\r\nHost: 127.0.0.1:{port}\r\n\r\n").as_bytes()).await.map_err(|e| e.to_string())?;
-                let (rep, _) = read_n(&mut s, 39, Duration::from_secs(40)).await;
+                let rep = read_http_head(&mut s, Duration::from_secs(40)).await;
                 if !rep.starts_with(b"HTTP/1.1 200") { return Err(format!("CONNECT refused: {}", String::from_utf8_lossy(&rep))); }
                 Ok::<_, String>(s)
             }
